@@ -66,6 +66,7 @@ type Run struct {
 	Isolate        bool // sharded children run under an address-space limit with a crash journal
 	shardI, shardN int  // >0 N: this process is child shard I of N
 	childOut       string
+	journal        *journal
 
 	parts                       []partStat
 	samples                     []interface{}
@@ -77,6 +78,7 @@ type Run struct {
 	knownKeys                   map[string]map[string]bool
 	violations                  int
 	harnessErr                  []string
+	notices                     []string
 	counters                    map[string]int64
 	States, Transitions, Traces int64
 	Programs, Disagreements     int64
@@ -155,7 +157,11 @@ func New(id, level string) *Run {
 			os.Exit(2)
 		}
 		r.Tier = r.replay.Tier
+		if r.replay.Class == "crash-in-history" { // replayed by re-running the whole part
+			r.only, r.replay = r.replay.Part, nil
+		}
 	}
+	r.supervise()
 	return r
 }
 
@@ -218,6 +224,9 @@ func (r *Run) Explore(part, bound string, o mc.Opts, body func(*mc.Ctx)) mc.Stat
 	t0 := time.Now()
 	o.OnHang = r.onHang(part)
 	r.stopRule(&o)
+	if r.journal != nil {
+		o.Journal = r.journal.writer(part)
+	}
 	st := mc.Explore(o, body)
 	r.account(part, bound, o, st, t0, body)
 	return st
@@ -267,7 +276,13 @@ func (r *Run) account(part, bound string, o mc.Opts, st mc.Stats, t0 time.Time, 
 			}
 		}
 		if !same {
-			r.harnessErr = append(r.harnessErr, fmt.Sprintf("NONDETERMINISM part=%s choices=%v class=%q did not fail the same way on re-execution", part, f.Choices, f.Class))
+			// The failure was observed on the real code but the same vector does not fail when run again in
+			// this process: the outcome depends on calls made earlier in the process (state kept by the code
+			// under test between calls). It is reported, marked as such; the notice keeps the run from
+			// passing silently if it ever happens without a recorded violation.
+			r.notices = append(r.notices, fmt.Sprintf("HISTORY-DEPENDENT part=%s choices=%v class=%q did not fail the same way on re-execution", part, f.Choices, f.Class))
+			f.Detail = "[history-dependent: this vector failed during the exploration but not when re-executed alone; the code under test keeps state between calls] " + f.Detail
+			r.file(part, f, nil)
 			continue
 		}
 		r.file(part, f, nil)
@@ -335,21 +350,8 @@ func (r *Run) ExploreSharded(part, bound string, o mc.Opts, n int, body func(*mc
 		o.OnHang = r.onHang(part)
 		r.stopRule(&o)
 		if jp := os.Getenv("VERIF_JOURNAL"); jp != "" {
-			jf, err := os.OpenFile(jp, os.O_CREATE|os.O_RDWR|os.O_TRUNC, 0o644)
-			if err == nil {
-				buf := make([]byte, 0, 4096)
-				o.Journal = func(forced []int) {
-					buf = buf[:0]
-					for _, v := range forced {
-						buf = strconv.AppendInt(buf, int64(v), 10)
-						buf = append(buf, ' ')
-					}
-					buf = append(buf, '\n')
-					for len(buf) < 256 {
-						buf = append(buf, ' ')
-					}
-					jf.WriteAt(buf, 0)
-				}
+			if j := openJournal(jp, true); j != nil {
+				o.Journal = j.writer(part)
 			}
 		}
 		if lim := os.Getenv("VERIF_AS_LIMIT"); lim != "" {
@@ -390,8 +392,9 @@ func (r *Run) ExploreSharded(part, bound string, o mc.Opts, n int, body func(*mc
 			cmd := exec.Command(os.Args[0], "--tier", r.Tier, "--only", part, "--shard", fmt.Sprintf("%d/%d", i, n), "--child-out", out)
 			jpath := out + ".journal"
 			cmd.Env = append(os.Environ(), "GOMAXPROCS=1")
+			cmd.Env = append(cmd.Env, "VERIF_JOURNAL="+jpath, "VERIF_SUPERVISED=1")
 			if r.Isolate {
-				cmd.Env = append(cmd.Env, "VERIF_JOURNAL="+jpath, fmt.Sprintf("VERIF_AS_LIMIT=%d", uint64(12)<<30))
+				cmd.Env = append(cmd.Env, fmt.Sprintf("VERIF_AS_LIMIT=%d", uint64(12)<<30))
 			}
 			ob, err := cmd.CombinedOutput()
 			defer os.Remove(jpath)
@@ -400,14 +403,9 @@ func (r *Run) ExploreSharded(part, bound string, o mc.Opts, n int, body func(*mc
 					results[i].viol = string(ob)
 					return
 				}
-				if jb, jerr := os.ReadFile(jpath); r.Isolate && jerr == nil {
+				if cands := readJournal(jpath); len(cands) > 0 && crashed(string(ob)) {
 					// the child died (fatal error: out of memory, stack overflow, ...): the journal names the input
-					var ch []int
-					for _, f := range strings.Fields(strings.SplitN(string(jb), "\n", 2)[0]) {
-						v, _ := strconv.Atoi(f)
-						ch = append(ch, v)
-					}
-					results[i].crash = &mc.Failure{Class: "crash", Choices: ch, Detail: "the decoding process died (not a recoverable panic) while executing this input (remaining choices after the prefix are 0): " + tail(string(ob), 1500)}
+					results[i].crash = &mc.Failure{Class: "crash", Choices: cands[0].choices, Detail: "the process died (not a recoverable panic) while executing this input (remaining choices after the prefix are 0): " + tail(string(ob), 1500)}
 					return
 				}
 				results[i].err = fmt.Errorf("shard %d: %v: %s", i, err, tail(string(ob), 2000))
@@ -660,11 +658,19 @@ func (r *Run) Finish() {
 			os.Exit(2)
 		}
 	}
+	for _, h := range r.notices {
+		fmt.Println("NOTICE", h)
+	}
+	if len(r.notices) > 0 && r.violations == 0 {
+		r.harnessErr = append(r.harnessErr, "history-dependent failures without a recorded violation")
+	}
 	if len(r.harnessErr) > 0 {
 		for _, h := range r.harnessErr {
 			fmt.Println("HARNESS-ERROR", h)
 		}
-		os.Exit(2)
+		if r.violations == 0 {
+			os.Exit(2)
+		}
 	}
 	fmt.Printf("[%s] tier=%s evaluations=%d nontrivial=%d exhaustive=%v violations=%d wall=%.1fs\n",
 		r.ID, r.Tier, execs, nontriv, exhaustive, r.violations, time.Since(r.start).Seconds())
